@@ -124,7 +124,8 @@ package gostatsd
 //@   ensures  old(hasC(mm, m.Name, tagsKey)) ==> mm.Counters[m.Name][tagsKey].Timestamp == imax(old(mm.Counters[m.Name][tagsKey].Timestamp), m.Timestamp)
 //@   ensures  old(hasC(mm, m.Name, tagsKey)) ==> mm.Counters[m.Name][tagsKey].Source == old(mm.Counters[m.Name][tagsKey].Source) && mm.Counters[m.Name][tagsKey].Tags == old(mm.Counters[m.Name][tagsKey].Tags)
 //@   ensures  !old(hasC(mm, m.Name, tagsKey)) && m.Rate > 0.0 && -9223372036854775808.0 < m.Value / m.Rate && m.Value / m.Rate < 9223372036854775808.0 ==> mm.Counters[m.Name][tagsKey].Value == truncf(m.Value / m.Rate)
-//@   ensures  !old(hasC(mm, m.Name, tagsKey)) ==> mm.Counters[m.Name][tagsKey].Timestamp == m.Timestamp && mm.Counters[m.Name][tagsKey].Source == m.Source && tagsCopied(mm.Counters[m.Name][tagsKey].Tags, m.Tags)
+//@   ensures  !old(hasC(mm, m.Name, tagsKey)) ==> mm.Counters[m.Name][tagsKey].Timestamp == m.Timestamp
+//@   ensures  [copy] !old(hasC(mm, m.Name, tagsKey)) ==> mm.Counters[m.Name][tagsKey].Source == m.Source && tagsCopied(mm.Counters[m.Name][tagsKey].Tags, m.Tags)
 //@   ensures  forall n string, t string :: (n != m.Name || t != tagsKey) ==> hasC(mm, n, t) == old(hasC(mm, n, t)) && (hasC(mm, n, t) ==> mm.Counters[n][t] == old(mm.Counters[n][t]))
 //@   modifies mm.Counters[*], mm.Counters[m.Name][*]
 
@@ -138,7 +139,8 @@ package gostatsd
 //@   ensures  [tie] old(hasG(mm, m.Name, tagsKey)) && m.Timestamp >= old(mm.Gauges[m.Name][tagsKey].Timestamp) ==> mm.Gauges[m.Name][tagsKey].Value == m.Value && mm.Gauges[m.Name][tagsKey].Timestamp == m.Timestamp
 //@   ensures  old(hasG(mm, m.Name, tagsKey)) && m.Timestamp < old(mm.Gauges[m.Name][tagsKey].Timestamp) ==> mm.Gauges[m.Name][tagsKey] == old(mm.Gauges[m.Name][tagsKey])
 //@   ensures  old(hasG(mm, m.Name, tagsKey)) ==> mm.Gauges[m.Name][tagsKey].Source == old(mm.Gauges[m.Name][tagsKey].Source) && mm.Gauges[m.Name][tagsKey].Tags == old(mm.Gauges[m.Name][tagsKey].Tags)
-//@   ensures  !old(hasG(mm, m.Name, tagsKey)) ==> mm.Gauges[m.Name][tagsKey].Value == m.Value && mm.Gauges[m.Name][tagsKey].Timestamp == m.Timestamp && mm.Gauges[m.Name][tagsKey].Source == m.Source && tagsCopied(mm.Gauges[m.Name][tagsKey].Tags, m.Tags)
+//@   ensures  !old(hasG(mm, m.Name, tagsKey)) ==> mm.Gauges[m.Name][tagsKey].Value == m.Value && mm.Gauges[m.Name][tagsKey].Timestamp == m.Timestamp
+//@   ensures  [copy] !old(hasG(mm, m.Name, tagsKey)) ==> mm.Gauges[m.Name][tagsKey].Source == m.Source && tagsCopied(mm.Gauges[m.Name][tagsKey].Tags, m.Tags)
 //@   ensures  forall n string, t string :: (n != m.Name || t != tagsKey) ==> hasG(mm, n, t) == old(hasG(mm, n, t)) && (hasG(mm, n, t) ==> mm.Gauges[n][t] == old(mm.Gauges[n][t]))
 //@   modifies mm.Gauges[*], mm.Gauges[m.Name][*]
 
@@ -154,7 +156,8 @@ package gostatsd
 //@   ensures  old(hasT(mm, m.Name, tagsKey)) ==> mm.Timers[m.Name][tagsKey].Timestamp == imax(old(mm.Timers[m.Name][tagsKey].Timestamp), m.Timestamp)
 //@   ensures  old(hasT(mm, m.Name, tagsKey)) ==> mm.Timers[m.Name][tagsKey].Source == old(mm.Timers[m.Name][tagsKey].Source) && mm.Timers[m.Name][tagsKey].Tags == old(mm.Timers[m.Name][tagsKey].Tags)
 //@   ensures  !old(hasT(mm, m.Name, tagsKey)) ==> len(mm.Timers[m.Name][tagsKey].Values) == 1 && mm.Timers[m.Name][tagsKey].Values[0] == m.Value && mm.Timers[m.Name][tagsKey].SampledCount == 1.0 / m.Rate
-//@   ensures  !old(hasT(mm, m.Name, tagsKey)) ==> mm.Timers[m.Name][tagsKey].Timestamp == m.Timestamp && mm.Timers[m.Name][tagsKey].Source == m.Source && tagsCopied(mm.Timers[m.Name][tagsKey].Tags, m.Tags)
+//@   ensures  !old(hasT(mm, m.Name, tagsKey)) ==> mm.Timers[m.Name][tagsKey].Timestamp == m.Timestamp
+//@   ensures  [copy] !old(hasT(mm, m.Name, tagsKey)) ==> mm.Timers[m.Name][tagsKey].Source == m.Source && tagsCopied(mm.Timers[m.Name][tagsKey].Tags, m.Tags)
 //@   ensures  forall n string, t string :: (n != m.Name || t != tagsKey) ==> hasT(mm, n, t) == old(hasT(mm, n, t)) && (hasT(mm, n, t) ==> mm.Timers[n][t] == old(mm.Timers[n][t]))
 //@   modifies mm.Timers[*], mm.Timers[m.Name][*], allElems(float64)
 
@@ -166,7 +169,8 @@ package gostatsd
 //@   ensures  old(hasS(mm, m.Name, tagsKey)) ==> forall x string :: (x in mm.Sets[m.Name][tagsKey].Values) == (old(x in mm.Sets[m.Name][tagsKey].Values) || x == m.StringValue)
 //@   ensures  old(hasS(mm, m.Name, tagsKey)) ==> mm.Sets[m.Name][tagsKey].Timestamp == imax(old(mm.Sets[m.Name][tagsKey].Timestamp), m.Timestamp)
 //@   ensures  !old(hasS(mm, m.Name, tagsKey)) ==> fresh(mm.Sets[m.Name][tagsKey].Values) && (forall x string :: (x in mm.Sets[m.Name][tagsKey].Values) == (x == m.StringValue))
-//@   ensures  !old(hasS(mm, m.Name, tagsKey)) ==> mm.Sets[m.Name][tagsKey].Timestamp == m.Timestamp && mm.Sets[m.Name][tagsKey].Source == m.Source && tagsCopied(mm.Sets[m.Name][tagsKey].Tags, m.Tags)
+//@   ensures  !old(hasS(mm, m.Name, tagsKey)) ==> mm.Sets[m.Name][tagsKey].Timestamp == m.Timestamp
+//@   ensures  [copy] !old(hasS(mm, m.Name, tagsKey)) ==> mm.Sets[m.Name][tagsKey].Source == m.Source && tagsCopied(mm.Sets[m.Name][tagsKey].Tags, m.Tags)
 //@   ensures  forall n string, t string :: (n != m.Name || t != tagsKey) ==> hasS(mm, n, t) == old(hasS(mm, n, t)) && (hasS(mm, n, t) ==> mm.Sets[n][t] == old(mm.Sets[n][t]))
 //@   modifies mm.Sets[*], mm.Sets[m.Name][*], mm.Sets[m.Name][tagsKey].Values[*]
 
